@@ -113,6 +113,9 @@ func skeleton(e string) string {
 var c11Known = map[string]string{}
 
 func (p c11) Run(w *mon.Worker, idx int) mon.Result {
+	if idx%40 == 39 && !w.Race {
+		return c11CLICase(w, idx)
+	}
 	c := c11Gen(w, idx)
 	res := mon.Result{Case: c, Evals: 1}
 	_, perr, ppan := yqx.Parse(c.Expr)
